@@ -112,43 +112,50 @@ end
 
 /-! ### well-formed expression trees (what the acceptance theorem needs) -/
 
-/-- an ASCII identifier that is not a keyword -/
+/-- an ASCII identifier that is not a keyword (decidable without the oracle: the generator's own names) -/
 def asciiIdent (n : List Char) : Bool :=
   match n with
   | [] => false
   | c :: r => idStartA c && r.all idContA && (c :: r).all (fun x => x.toNat < 128) && !keywords.contains (c :: r)
 
+/-- an identifier that is not a keyword: ASCII letters / digits / `_`, and the non-ASCII characters for
+    which the oracle `X` (`str.isidentifier`) says so -/
+def identOk (X : Ora) (n : List Char) : Bool :=
+  match n with
+  | [] => false
+  | c :: r => idStart X c && r.all (idCont X) && !keywords.contains (c :: r)
+
 /-- a name that may be assigned / used as a keyword argument -/
-def targetName (n : List Char) : Bool := asciiIdent n && !forbiddenTarget n
+def targetName (X : Ora) (n : List Char) : Bool := identOk X n && !forbiddenTarget n
 
 def nodupL : List (List Char) → Bool
   | [] => true
   | x :: xs => !xs.contains x && nodupL xs
 
 mutual
-def wf : PyExpr → Bool
-  | .name n => asciiIdent n
+def wf (X : Ora) : PyExpr → Bool
+  | .name n => identOk X n
   | .const w => constKw w && keywords.contains w
   | .num t => isNumText t
   | .negNum t => isNumText t
   | .strLit _ => true
-  | .call f kws => asciiIdent f && nodupL (kws.map (·.1)) && wfKws kws
-  | .list xs => wfL xs
-  | .dict kvs => wfKVs kvs
-  | .lam b => wf b
+  | .call f kws => identOk X f && nodupL (kws.map (·.1)) && wfKws X kws
+  | .list xs => wfL X xs
+  | .dict kvs => wfKVs X kvs
+  | .lam b => wf X b
   | .bad => false
 termination_by structural e => e
-def wfL : List PyExpr → Bool
+def wfL (X : Ora) : List PyExpr → Bool
   | [] => true
-  | x :: xs => wf x && wfL xs
+  | x :: xs => wf X x && wfL X xs
 termination_by structural xs => xs
-def wfKws : List (List Char × PyExpr) → Bool
+def wfKws (X : Ora) : List (List Char × PyExpr) → Bool
   | [] => true
-  | (k, v) :: r => targetName k && wf v && wfKws r
+  | (k, v) :: r => targetName X k && wf X v && wfKws X r
 termination_by structural kws => kws
-def wfKVs : List (PyExpr × PyExpr) → Bool
+def wfKVs (X : Ora) : List (PyExpr × PyExpr) → Bool
   | [] => true
-  | (k, v) :: r => wf k && wf v && wfKVs r
+  | (k, v) :: r => wf X k && wf X v && wfKVs X r
 termination_by structural kvs => kvs
 end
 
@@ -237,7 +244,8 @@ def schemaExpr (O : EOra) : Schema → Option PyVal → PyExpr
   | .arrOf s sz, d => callS chars!"Array" (withDefault O d (arrKws sz true ++ kw chars!"items" (schemaExpr O s none)))
   | .arrPos ss addl sz, d =>
     callS chars!"Array" (withDefault O d (arrKws sz addl ++ kw chars!"items" (.list (schemaExprL O ss))))
-  | .mapAny _ _ _, d => callS chars!"Map" (withDefault O d [])
+  | .mapAny _ mn mx, d =>
+    callS chars!"Map" (withDefault O d (optKw chars!"maxItems" natExpr mx ++ optKw chars!"minItems" natExpr mn))
   | .mapOf v mn mx, d =>
     callS chars!"Map" (withDefault O d
       (kw chars!"items" (.list [callS chars!"String" [], schemaExpr O v none])
@@ -402,53 +410,54 @@ def objKwNames (addl : Bool) (req : Option (List String)) (names : List String) 
 mutual
 /-- the schema is printed as a well-formed expression: `$ref` names are identifiers, property names
     are assignable identifiers and distinct as keyword arguments, values are JSON values -/
-def emitOk : Schema → Option PyVal → Bool
-  | .ref n, _ => asciiIdent n.toList
+def emitOk (X : Ora) : Schema → Option PyVal → Bool
+  | .ref n, _ => identOk X n.toList
   | .num _ _ _ _ _, d => dOk d
   | .str _ _ _, d => dOk d
   | .bool, d => dOk d
   | .enum vs, d => jsonValL vs && dOk d
   | .arrAny _, d => dOk d
-  | .arrOf s _, d => emitOk s none && dOk d
-  | .arrPos ss _ _, d => emitOkL ss && dOk d
+  | .arrOf s _, d => emitOk X s none && dOk d
+  | .arrPos ss _ _, d => emitOkL X ss && dOk d
   | .mapAny _ _ _, d => dOk d
-  | .mapOf v _ _, d => emitOk v none && dOk d
+  | .mapOf v _ _, d => emitOk X v none && dOk d
   | .obj props defaults req addl, d =>
-    (props.all fun p => targetName p.1.toList) && nodupL (objKwNames addl req (props.map (·.1)) d)
-      && emitOkP defaults props && dOk d
-  | .allOf ss, d => emitOkL ss && dOk d
-  | .anyOf ss, d => emitOkL ss && dOk d
-  | .oneOf ss, d => emitOkL ss && dOk d
-  | .notS ss, d => emitOkL ss && dOk d
+    (props.all fun p => targetName X p.1.toList) && nodupL (objKwNames addl req (props.map (·.1)) d)
+      && emitOkP X defaults props && dOk d
+  | .allOf ss, d => emitOkL X ss && dOk d
+  | .anyOf ss, d => emitOkL X ss && dOk d
+  | .oneOf ss, d => emitOkL X ss && dOk d
+  | .notS ss, d => emitOkL X ss && dOk d
   | .unsupported _, _ => false
 termination_by structural s => s
-def emitOkL : List Schema → Bool
+def emitOkL (X : Ora) : List Schema → Bool
   | [] => true
-  | s :: ss => emitOk s none && emitOkL ss
+  | s :: ss => emitOk X s none && emitOkL X ss
 termination_by structural ss => ss
-def emitOkP (defaults : List (String × PyVal)) : List (String × Schema) → Bool
+def emitOkP (X : Ora) (defaults : List (String × PyVal)) : List (String × Schema) → Bool
   | [] => true
-  | (n, s) :: ps => emitOk s (lookup n defaults) && emitOkP defaults ps
+  | (n, s) :: ps => emitOk X s (lookup n defaults) && emitOkP X defaults ps
 termination_by structural ps => ps
 end
 
 
+/-- every description is fine since the repair of `unescaped:description-nul` (NUL is written `\x00`);
+    kept as a named side condition -/
 def descOk : Option String → Bool
-  | none => true
-  | some d => !d.toList.contains cNUL
+  | _ => true
 
 /-- the schema of a class statement (top level: `schema_to_struct_code`) is printed well-formed -/
-def classSchemaOk (s : Schema) : Bool :=
+def classSchemaOk (X : Ora) (s : Schema) : Bool :=
   match s with
-  | .obj props defaults _ _ => (props.all fun p => targetName p.1.toList) && emitOkP defaults props
+  | .obj props defaults _ _ => (props.all fun p => targetName X p.1.toList) && emitOkP X defaults props
   | .mapAny _ _ _ => true
   | .mapOf _ _ _ => true
-  | s => emitOk s none
+  | s => emitOk X s none
 
 
 /-- schema-level conditions under which a class is printed well-formed -/
-def classSrcOk (c : ClassSrc) : Bool :=
-  asciiIdent c.name.toList && descOk c.desc && classSchemaOk c.schema
+def classSrcOk (X : Ora) (c : ClassSrc) : Bool :=
+  identOk X c.name.toList && descOk c.desc && classSchemaOk X c.schema
 
 
 end Typedpy.Emit
